@@ -56,7 +56,11 @@ CARDS = [(False, False), (False, True), (True, False), (True, True)]
 CARD_NAME = {(False, False): "UNARY_UNARY", (False, True): "UNARY_STREAM", (True, False): "STREAM_UNARY", (True, True): "STREAM_STREAM"}
 HELPER = {(False, False): "_unary_unary", (False, True): "_unary_stream", (True, False): "_stream_unary", (True, True): "_stream_stream"}
 HELPERS = list(HELPER.values())
-STATUSES = ["NOT_FOUND", "PERMISSION_DENIED", "RESOURCE_EXHAUSTED", "ABORTED"]
+# every non-OK status a handler can raise (a client that treats one of them specially — retries it, maps it to
+# another exception — breaks "the handler's status reaches the caller" / "invoked exactly once" for that code only)
+STATUSES = ["CANCELLED", "UNKNOWN", "INVALID_ARGUMENT", "DEADLINE_EXCEEDED", "NOT_FOUND", "ALREADY_EXISTS", "PERMISSION_DENIED",
+            "RESOURCE_EXHAUSTED", "FAILED_PRECONDITION", "ABORTED", "OUT_OF_RANGE", "UNIMPLEMENTED", "INTERNAL", "UNAVAILABLE",
+            "DATA_LOSS", "UNAUTHENTICATED"]
 OPT_SETS = [(), ("typing.root",), ("pydantic_dataclasses",)]
 KW_VALUES = [{"st": 11.0, "ct": 22.0, "sd": 33.0, "cd": 44.0}, {"st": 44.0, "ct": 33.0, "sd": 22.0, "cd": 11.0}]
 CALL_TIMEOUT = 20.0      # harness guard against a hung call (seconds)
@@ -643,12 +647,13 @@ def plan_cases(rng, svc, k, unimpl, kw_mode, tier):
         if m.cs and m.ss:
             n = rng.randint(1, k)
             case(m, "pingpong", n, n, "agen")
-        for status in rng.sample(STATUSES, 2 if tier == "quick" else 4):
+        for status in STATUSES:
             rl = rng.randint(0, k) if m.cs else 1
             ik = rng.choice(iks)
             if m.ss:
                 case(m, "error", rl, 0, ik, status)
-                case(m, "error", rl, rng.randint(1, k), ik, status)
+                if tier != "quick" or rng.random() < 0.3:
+                    case(m, "error", rl, rng.randint(1, k), ik, status)
             else:
                 case(m, "error", rl, 0, ik, status)
     if kw_mode:
@@ -937,7 +942,7 @@ RULE = ("service schemas drawn from chk.rng: package in {none, pkg, a.b.c}; 1-2 
         "Empty/StringValue/Timestamp; options default (thorough: also typing.root, pydantic_dataclasses). Per method: request-stream lengths 0..k x "
         "response-stream lengths 0..k x request iterator {list, async generator} (+ a plain generator), random field values (non-default with "
         "probability > 0.75 per field); one method per service may be left un-overridden (UNIMPLEMENTED, all 4 cardinalities over the run); "
-        "handlers raising GRPCError(NOT_FOUND|PERMISSION_DENIED|RESOURCE_EXHAUSTED|ABORTED, msg), for server streaming also after 1..k responses; "
+        "handlers raising GRPCError(<each of the 16 non-OK statuses>, msg), for server streaming also after 1..k responses; "
         "8 x 8 stub-level x call-level None/set combinations of timeout/deadline/metadata with two value sets (timeouts below and above the deadlines). "
         "non-trivial = a non-default message value or a non-empty stream; distinct by schema position + lengths + value hash")
 
